@@ -73,6 +73,7 @@ func init() {
 	registerFamily("C15", C15)
 	registerFamily("C12", C12)
 	registerFamily("C14", C14)
+	registerFamily("C07", C07)
 }
 
 var _ = engine.VerifDir
